@@ -12,6 +12,10 @@ def executor_instances(fx, cls=FE):
     for f in fx.functions:
         if f.get("cls") != cls or f["kind"] != "inst":
             continue
+        if cls == FE and f["clsk"].startswith(FE + "<galois::worklists::Deterministic<"):
+            # partial specialisation of the executor for the deterministic scheduler (Executor_Deterministic.h): a different
+            # class with its own protocol, decided by C07
+            continue
         d = out.setdefault(f["clsk"], {"consts": None, "fns": {}})
         d["fns"].setdefault(f["name"], []).append(f)
     for k, d in out.items():
